@@ -389,3 +389,154 @@ Proof.
   - destruct Hr as [Hc|Hc]; [|discriminate]. apply Hdeco; [exact Hc|reflexivity].
   - destruct Hr as [Hc|Hc]; [|discriminate]. apply Hdeco; [exact Hc|reflexivity].
 Qed.
+
+(** ** GetFromComposite through the composites (parent [p]; the child is
+    served by whichever backend holds the parent). *)
+Lemma bgfc_spec b d s c s1 : bgfc b d s = (c, s1) ->
+  sa s1 = sa s /\ sb s1 = sb s /\
+  (c = 0 -> memb d (contents b s) = true) /\
+  (fl s = [] -> fl s1 = [] /\ c = if memb d (contents b s) then 0 else 5).
+Proof.
+  unfold bgfc. pose proof (record_spec b CGfc [d] s) as R.
+  pose proof (contents_record b b CGfc [d] s) as C.
+  destruct (record b CGfc [d] s) as [f s0]. cbn in C. destruct R as (Ra & Rb & _ & Rf).
+  destruct (f =? 0) eqn:Ef; intros H; inversion H; subst; clear H.
+  - rewrite C. repeat split; auto.
+    + destruct (memb d (contents b s)); [reflexivity|discriminate].
+    + apply Rf; assumption.
+  - repeat split; auto.
+    + intros ->. discriminate.
+    + apply Rf; assumption.
+    + destruct (Rf H) as [-> _]. discriminate.
+Qed.
+
+Lemma repl_eq_noop r : r = RNoop \/ r <> RNoop.
+Proof. destruct r; [right|left|right|right]; try reflexivity; discriminate. Qed.
+
+(** Every replicator but the non-copying one replicates the parent with its
+    own ReplicateMultiple and then reads the child back from the sink. *)
+Lemma rcomposite_deco r p s : r <> RNoop ->
+  rcomposite r p s = (let (c, s1) := rmultiple r [p] s in if c =? 0 then sink_gfc_nf p s1 else (c, s1)).
+Proof. destruct r; intros H; try reflexivity. contradiction H. reflexivity. Qed.
+
+Lemma copying_not_noop r : copying r = true -> r <> RNoop.
+Proof. intros H ->. discriminate. Qed.
+
+Lemma rcomposite_grows r p s c s1 : rcomposite r p s = (c, s1) -> grows s s1.
+Proof.
+  destruct (repl_eq_noop r) as [->|Hn].
+  - cbn [rcomposite]. intros H. apply bgfc_spec in H. destruct H as (Ga & Gb & _). apply grows_same; assumption.
+  - rewrite (rcomposite_deco r p s Hn). destruct (rmultiple r [p] s) as [c0 s0] eqn:R. apply rmultiple_grows in R.
+    destruct (c0 =? 0).
+    + unfold sink_gfc_nf. destruct (bgfc BA p s0) as [b s2] eqn:G. intros H. inversion H; subst.
+      apply bgfc_spec in G. destruct G as (Ga & Gb & _). eapply grows_trans; [exact R|]. apply grows_same; assumption.
+    + intros H. inversion H; subst. exact R.
+Qed.
+
+(** Soundness, every replicator stack, every fault sequence: the child is
+    returned only if one of the backends held the parent. *)
+Theorem cgfc_sound r p s s1 : cgfc r p s = (0, s1) ->
+  memb p (sa s) = true \/ memb p (sb s) = true.
+Proof.
+  unfold cgfc. destruct (bgfc BA p s) as [b s0] eqn:G.
+  apply bgfc_spec in G. destruct G as (Ga & Gb & G0 & _).
+  destruct (b =? 5) eqn:E5.
+  - destruct (repl_eq_noop r) as [->|Hn].
+    + cbn [rcomposite]. intros H. apply bgfc_spec in H. destruct H as (_ & _ & H0 & _).
+      right. rewrite <- Gb. apply H0. reflexivity.
+    + rewrite (rcomposite_deco r p s0 Hn). destruct (rmultiple r [p] s0) as [c0 s2] eqn:R. apply rmultiple_grows in R.
+      destruct (c0 =? 0) eqn:Ec.
+      * unfold sink_gfc_nf. destruct (bgfc BA p s2) as [b2 s3] eqn:G2. intros H. inversion H as [[Hb Hs]].
+        destruct (b2 =? 5); [discriminate|]. subst b2. apply bgfc_spec in G2. destruct G2 as (_ & _ & G20 & _).
+        specialize (G20 eq_refl). cbn in G20. destruct R as (_ & _ & R3). destruct (R3 _ G20) as [X|X].
+        -- left. rewrite <- Ga. exact X.
+        -- right. rewrite <- Gb. exact X.
+      * intros H. inversion H; subst. discriminate.
+  - intros H. inversion H; subst. left. apply G0. reflexivity.
+Qed.
+
+(** After a successful composite read through any replicator that is not the
+    bare non-copying one, the PARENT is in the fast / primary backend (every
+    fault sequence): read caching's purpose. *)
+Theorem cgfc_populates r p s s1 : r <> RNoop -> cgfc r p s = (0, s1) -> memb p (sa s1) = true.
+Proof.
+  intros Hn. unfold cgfc. destruct (bgfc BA p s) as [b s0] eqn:G.
+  apply bgfc_spec in G. destruct G as (Ga & Gb & G0 & _).
+  destruct (b =? 5) eqn:E5.
+  - rewrite (rcomposite_deco r p s0 Hn). destruct (rmultiple r [p] s0) as [c0 s2] eqn:R.
+    destruct (c0 =? 0) eqn:Ec.
+    + unfold sink_gfc_nf. destruct (bgfc BA p s2) as [b2 s3] eqn:G2. intros H. inversion H as [[Hb Hs]].
+      destruct (b2 =? 5); [discriminate|]. subst b2 s3. apply bgfc_spec in G2. destruct G2 as (G2a & _ & G20 & _).
+      rewrite G2a. apply G20. reflexivity.
+    + intros H. inversion H; subst. discriminate.
+  - intros H. inversion H; subst. rewrite Ga. apply G0. reflexivity.
+Qed.
+
+Lemma deco_composite r' p s0 : copying r' = true -> fl s0 = [] -> memb p (sa s0) = false ->
+  let res := (let (c, s1) := rmultiple r' [p] s0 in if c =? 0 then sink_gfc_nf p s1 else (c, s1)) in
+  fst res = (if memb p (sb s0) then 0 else 5) /\ fl (snd res) = [].
+Proof.
+  intros Hc Hf0 Ha0. cbv zeta. destruct (rmultiple r' [p] s0) as [c s1] eqn:R.
+  destruct (rmultiple_one r' Hc p s0 c s1 Hf0 Ha0 R) as [Hf1 Hres].
+  destruct (memb p (sb s0)).
+  - destruct Hres as [-> Hin]. cbn [Z.eqb]. unfold sink_gfc_nf.
+    destruct (bgfc BA p s1) as [b2 s2] eqn:G2. apply bgfc_spec in G2. destruct G2 as (_ & _ & _ & G2f).
+    destruct (G2f Hf1) as [Hf2 Hb2]. cbn [contents] in Hb2. rewrite Hin in Hb2. subst b2. split; [reflexivity|exact Hf2].
+  - subst c. split; [reflexivity|exact Hf1].
+Qed.
+
+(** Without backend failures, every copying stack and the non-copying
+    replicator: the child is returned iff fast/primary or slow/secondary
+    holds the parent; NOT_FOUND otherwise. *)
+Theorem cgfc_complete_copying r p s : (copying r = true \/ r = RNoop) -> fl s = [] ->
+  fst (cgfc r p s) = if memb p (sa s) || memb p (sb s) then 0 else 5.
+Proof.
+  intros Hr Hf. unfold cgfc. destruct (bgfc BA p s) as [b s0] eqn:G.
+  apply bgfc_spec in G. destruct G as (Ga & Gb & _ & Gf). destruct (Gf Hf) as [Hf0 Hb]. cbn [contents] in Hb.
+  subst b. destruct (memb p (sa s)) eqn:Ma; cbn [orb]; [reflexivity|].
+  change (5 =? 5) with true. cbn iota. rewrite <- Gb.
+  destruct Hr as [Hc| ->].
+  - rewrite (rcomposite_deco r p s0 (copying_not_noop r Hc)).
+    apply (deco_composite r p s0 Hc Hf0). rewrite Ga. exact Ma.
+  - cbn [rcomposite]. destruct (bgfc BB p s0) as [b1 s2] eqn:G1. apply bgfc_spec in G1.
+    destruct G1 as (_ & _ & _ & G1f). destruct (G1f Hf0) as [_ Hb1]. cbn [contents] in Hb1. exact Hb1.
+Qed.
+
+(** Read-through (no backend failure, copying stack): a parent that only the
+    slow / secondary backend holds is served AND is in the fast / primary
+    backend afterwards, while the slow / secondary backend is unchanged. *)
+Theorem cgfc_read_through r p s : copying r = true -> fl s = [] ->
+  memb p (sa s) = false -> memb p (sb s) = true ->
+  fst (cgfc r p s) = 0 /\ memb p (sa (snd (cgfc r p s))) = true /\ sb (snd (cgfc r p s)) = sb s.
+Proof.
+  intros Hc Hf Ha Hb. pose proof (cgfc_complete_copying r p s (or_introl Hc) Hf) as C.
+  rewrite Ha, Hb in C. cbn [orb] in C. destruct (cgfc r p s) as [c s1] eqn:E. cbn [fst snd] in *. subst c.
+  split; [reflexivity|]. split; [exact (cgfc_populates r p s s1 (copying_not_noop r Hc) E)|].
+  unfold cgfc in E. destruct (bgfc BA p s) as [b s0] eqn:G. apply bgfc_spec in G. destruct G as (_ & Gb & _).
+  destruct (b =? 5).
+  - apply rcomposite_grows in E. destruct E as (E & _). congruence.
+  - inversion E; subst. exact Gb.
+Qed.
+
+(** The backend name prepended to a read's error (fallback only): "Primary"
+    exactly when the primary's own answer is an error other than NOT_FOUND -
+    which is then the result -, "Secondary" exactly when the primary answered
+    NOT_FOUND and the replicator ended with an error other than NOT_FOUND. *)
+Theorem read_pfx_caching first final : read_pfx ReadCaching first final = 0.
+Proof. reflexivity. Qed.
+
+Theorem gfc_pfx_primary r p s : step_pfx ReadFallback r (OGfc p) s = 1 <->
+  (fst (bgfc BA p s) <> 0 /\ fst (bgfc BA p s) <> 5).
+Proof.
+  cbn [step_pfx read_pfx]. destruct (fst (bgfc BA p s) =? 0) eqn:E0; [|destruct (fst (bgfc BA p s) =? 5) eqn:E5]; cbn [negb].
+  - apply Z.eqb_eq in E0. split; [discriminate|]. intros [H _]. contradiction.
+  - apply Z.eqb_eq in E5. split; [|intros [_ H]; contradiction].
+    destruct ((fst (cgfc r p s) =? 0) || (fst (cgfc r p s) =? 5)); discriminate.
+  - apply Z.eqb_neq in E0, E5. split; [intros _; split; assumption|reflexivity].
+Qed.
+
+Theorem gfc_primary_error_is_result r p s : fst (bgfc BA p s) <> 5 -> fst (cgfc r p s) = fst (bgfc BA p s).
+Proof.
+  intros H. unfold cgfc. destruct (bgfc BA p s) as [b s0]. cbn [fst] in *.
+  apply Z.eqb_neq in H. rewrite H. reflexivity.
+Qed.
